@@ -6,6 +6,7 @@ From XcpModel Require Import Base Extents Sparse Blocks CopyLoop Uspace FileCopy
 From XcpProofs Require Import ExtentsProofs SparseProofs BlocksProofs CopyLoopProofs UspaceProofs FileCopyProofs.
 From XcpModel Require Import Extracted.
 From XcpProofs Require Import ExtractedOk.
+From XcpModel Require Import Uspace.
 From Coq Require Import Permutation.
 
 (* user-space pread/pwrite loop: Ok means the whole range was moved, aligned;
@@ -108,6 +109,16 @@ Theorem C05_src_block_job_step : forall f flen off bytes done k rest,
   else out_cons (req, XOk k) (block_job f flen off bytes (done + k) rest).
 Proof. exact x_block_job_ok. Qed.
 
+(* the two user-space copy loops of libfs, TRANSLATED from the current source (while loop -> fuelled fixpoint, each
+   pread/pwrite/read/write consumes one kernel answer and logs one event, `return Err` / `continue` as written),
+   are equal to the models every theorem above is about — for all fuel, sizes, offsets and answer sequences *)
+Theorem C05_src_copy_range_uspace_loop : forall fuel nbytes off ans,
+  x_copy_range_uspace fuel nbytes off ans = copy_range_uspace fuel nbytes off 0 ans.
+Proof. exact x_copy_range_uspace_ok. Qed.
+Theorem C05_src_copy_bytes_uspace_loop : forall fuel nbytes rpos wpos ans,
+  x_copy_bytes_uspace fuel nbytes rpos wpos ans = copy_bytes_uspace fuel nbytes rpos wpos 0 ans.
+Proof. exact x_copy_bytes_uspace_ok. Qed.
+
 Print Assumptions C05_uspace_range_exact.
 Print Assumptions C05_uspace_bytes_exact.
 Print Assumptions C05_parfile.
@@ -119,3 +130,5 @@ Print Assumptions C05_clone_unsupported_errnos.
 Print Assumptions C05_src_cfr_fallback_errnos.
 Print Assumptions C05_src_fiemap_unsupported.
 Print Assumptions C05_src_block_job_step.
+Print Assumptions C05_src_copy_range_uspace_loop.
+Print Assumptions C05_src_copy_bytes_uspace_loop.
